@@ -231,7 +231,8 @@ fn gen_mtu(rng: &mut Rng, lo: u16, hi: u16) -> u16 {
 fn gen_blen(rng: &mut Rng, mtu: u16, huge: bool) -> usize {
     let m = mtu as i64;
     let nfb8 = ((m - 20) / 8) * 8;
-    let v: i64 = match rng.below(if huge { 16 } else { 14 }) {
+    let choice = rng.below(if huge { 16 } else { 14 });
+    let mut v: i64 = match choice {
         0 => *rng.pick(&[0i64, 1, 7, 8, 9]),
         1 => m - 21,
         2 => m - 20,
@@ -248,6 +249,10 @@ fn gen_blen(rng: &mut Rng, mtu: u16, huge: bool) -> usize {
         14 => *rng.pick(&[65515i64, 65514, 65508, 65507, 65500]),
         _ => rng.range(20000, 65515) as i64,
     };
+    // keep the share of datagrams that simply fit moderate: boundary picks stay, others are mostly re-drawn oversize
+    if v <= m - 20 && choice > 2 && rng.coin(2, 3) {
+        v = m - 20 + rng.range(1, 3 * m as u64) as i64;
+    }
     let cap = if huge { 65515 } else { 20000 };
     v.clamp(0, cap) as usize
 }
@@ -271,9 +276,10 @@ fn gen_chain(rng: &mut Rng, first: u16, floor: u16) -> Vec<u16> {
         } else if rng.coin(1, 2) {
             gen_mtu(rng, floor, prev - 1)
         } else {
-            // a small step down so that only the big pieces are re-fragmented
-            let lo = std::cmp::max(floor as i64, prev as i64 - 40) as u16;
-            rng.range(lo as u64, (prev - 1) as u64) as u16
+            // a step to just around the total length of a full piece of the previous step: at or above it
+            // everything passes through, just below it every full piece is split into NFB'*8 + a small rest
+            let full = 20 + ((prev as i64 - 20) / 8) * 8;
+            (full + 2 - rng.range(0, 26) as i64).clamp(floor as i64, prev as i64 - 1) as u16
         };
         mtus.push(next);
     }
